@@ -385,6 +385,9 @@ pub struct IlvOpts {
     pub cache: bool,
     /// preemption bound for scenarios with two threads of one call each (None: `bound`)
     pub bound_two_calls: Option<usize>,
+    /// C01: on every new final state, free all held blocks but one and exhaust memory at
+    /// the huge orders: no returned block may overlap the block still held
+    pub epilogue: bool,
     /// wall clock cap per scenario
     pub max_secs: f64,
     pub max_execs: u64,
@@ -485,6 +488,8 @@ pub struct Runner<'a> {
     pub stats: IlvStats,
     /// coroutines leaked because a call did not terminate: exploration of the scenario stops
     pub leaked: u64,
+    final_states: HashSet<u128>,
+    pub epilogues: u64,
 }
 
 impl<'a> Runner<'a> {
@@ -530,6 +535,8 @@ impl<'a> Runner<'a> {
             cache: HashMap::new(),
             stats: IlvStats::default(),
             leaked: 0,
+            final_states: HashSet::new(),
+            epilogues: 0,
         })
     }
 
@@ -792,10 +799,15 @@ impl<'a> Runner<'a> {
             }
             let mut h = std::collections::hash_map::DefaultHasher::new();
             std::hash::Hash::hash(&exec.calls, &mut h);
-            tr.outcome = hash128(
-                &self.sut.bufs.snapshot(),
-                std::hash::Hasher::finish(&h),
-            );
+            let final_bytes = self.sut.bufs.snapshot();
+            tr.outcome = hash128(&final_bytes, std::hash::Hasher::finish(&h));
+            if self.opts.epilogue
+                && !exec.viol.iter().any(|v| matches!(v.prop, "C01" | "C02" | "C03" | "MACHINERY"))
+                && self.final_states.insert(tr.outcome)
+            {
+                self.epilogues += 1;
+                c01_epilogue(&exec.model, &self.sut, &final_bytes, &mut exec.viol);
+            }
         }
         tr.viol = exec.viol;
         tr.calls = exec.calls;
@@ -864,6 +876,57 @@ impl<'a> Runner<'a> {
             e.viol.extend(v);
         });
     }
+}
+
+/// After quiescence: keep one held block, free all others, then allocate huge-order
+/// blocks until out of memory. A block overlapping the one still held is a C01 violation
+/// (counters that drifted during the interleaving only show once they read "entirely free").
+fn c01_epilogue(m: &Model, sut: &Sut, bytes: &[u8], out: &mut Vec<Violation>) {
+    use llfree::{HUGE_ORDER, TREE_ORDER};
+    let held: Vec<(usize, usize)> = m.held.iter().map(|(&s, &o)| (s, o)).collect();
+    let spec = &sut.cfg.classing;
+    let mut keep_sets: Vec<Option<usize>> = vec![None];
+    for i in 0..held.len().min(6) {
+        keep_sets.push(Some(i));
+    }
+    for keep in keep_sets {
+        sut.bufs.restore(bytes);
+        let mut mm = m.clone();
+        if let Some(k) = keep {
+            for (i, &(s, o)) in held.iter().enumerate() {
+                if i == k {
+                    continue;
+                }
+                let op = Op::Put { frame: s, order: o, class: spec.natural_class(o), local: None };
+                if sut.apply(&op) == Res::Done && mm.free_ok(s, o) {
+                    mm.apply_free(s, o);
+                }
+            }
+        }
+        let mut orders = vec![TREE_ORDER, HUGE_ORDER + 1, HUGE_ORDER];
+        orders.retain(|&o| o <= TREE_ORDER);
+        orders.dedup();
+        for order in orders {
+            for _ in 0..mm.frames / (1usize << HUGE_ORDER) + 2 {
+                let op = Op::Get { order, class: spec.natural_class(order), local: None, target: None };
+                match sut.apply(&op) {
+                    Res::Got(f, _) => {
+                        if let Err(e) = mm.apply_alloc(f, order) {
+                            out.push(Violation::new(
+                                "C01",
+                                "allocation after the interleaving returned a block overlapping a block that is still held",
+                                format!("after quiescence (kept held block {:?}, freed the others): {} -> {f}: {e}", keep.map(|k| held[k]), op.short()),
+                            ));
+                            sut.bufs.restore(bytes);
+                            return;
+                        }
+                    }
+                    _ => break,
+                }
+            }
+        }
+    }
+    sut.bufs.restore(bytes);
 }
 
 fn preemptions(tr_running: &[u8], choices: &[u8], upto: usize) -> usize {
@@ -1053,6 +1116,7 @@ pub fn replay(v: &Value) -> Result<Vec<String>, String> {
         c10: v["property"].as_str() == Some("C10"),
         cache: false,
         bound_two_calls: None,
+        epilogue: v["property"].as_str() == Some("C01"),
         max_secs: 60.0,
         max_execs: 1,
     };
